@@ -1463,6 +1463,10 @@ func (c *codegen) Visit(node ast.Node) ast.Visitor {
 			// distinguish lambda invocations from type conversions
 			if fun.Obj != nil && fun.Obj.Kind == ast.Var {
 				isFunc = true
+			} else if _, isVar := c.typeInfo.Uses[fun].(*types.Var); isVar && !ok && !isBuiltin {
+				// A package variable declared in another file: identifiers
+				// are resolved by the parser per file only.
+				isFunc = true
 			}
 			if ok && canInline(f.pkg.Path(), f.decl.Name.Name, false) {
 				c.inlineCall(f, n)
@@ -1482,6 +1486,11 @@ func (c *codegen) Visit(node ast.Node) ast.Visitor {
 			} else if sel := c.typeInfo.Selections[fun]; sel != nil && sel.Kind() == types.FieldVal {
 				// A struct field of function type, e.g. t.f(x): the value
 				// stored in the field is called.
+				isFuncValue = true
+				isMethod = false
+			} else if v, isVar := c.typeInfo.Uses[fun.Sel].(*types.Var); isVar && !v.IsField() {
+				// A variable of function type of an imported package,
+				// e.g. pkg.F(x): the value it holds is called.
 				isFuncValue = true
 				isMethod = false
 			} else {
